@@ -41,7 +41,7 @@ Definition ex_dce : func :=
         SBin 8%N PLUS (EVar 5%N) (EInt 1)]
        (Some 11%N)]
     (EVar 11%N).
-Definition ex_world : world := mkworld (fun _ _ _ => Some 0) (fun _ => 0) (fun _ => 0) (fun _ v => v).
+Definition ex_world : world := mkworld (fun _ _ _ => Some 0) (fun _ => 0) (fun _ => 0) (fun _ v => v) (fun _ _ => 0).
 Example C02deep_dce_nonvacuous :
   wf_func ex_dce = true /\
   dce ex_dce =
@@ -74,14 +74,18 @@ Proof. vm_compute. repeat split. Qed.
      Passes.dead_final_assignments: an if-else with final assignments one optimised branch of which now
        always ends in a Break: that branch's side of the final assignments (never read) likewise.
    Known finding (not repaired: behaviour is unaffected, the emitted code stays syntactically valid): the
-   emitted TypeScript then mentions a name that is declared nowhere, in dead code. *)
+   emitted TypeScript then mentions a name that is declared nowhere, in dead code.
+   `no_struct_forwarding f` (Passes.v, decidable, counted by the check): the pass also replaces the load of a field
+   of a struct that was made in the same function by the field expression (index_access_cx); the theorem is proved
+   for the pass without this replacement (Passes.ccp_nf) and the hypothesis says that the two agree on f.  It holds
+   for every function that does not read a field of a struct it has made itself - all functions before inlining. *)
 Theorem C02deep_ccp_preserves : forall w f f' fl,
-  wf_func f = true -> no_dead_final_operands f -> ccp f = Some (f', fl) -> refines w f' f.
+  wf_func f = true -> no_dead_final_operands f -> no_struct_forwarding f -> ccp f = Some (f', fl) -> refines w f' f.
 Proof. exact ccp_preserves_named. Qed.
 (* ... and then the output is well formed again, so that the next pass / round may rely on its own theorem *)
 Theorem C02deep_ccp_wf : forall f f' fl,
-  wf_func f = true -> no_break_l (f_body f) = true -> no_dead_final_operands f -> ccp f = Some (f', fl) ->
-  wf_func f' = true.
+  wf_func f = true -> no_break_l (f_body f) = true -> no_dead_final_operands f -> no_struct_forwarding f ->
+  ccp f = Some (f', fl) -> wf_func f' = true.
 Proof. exact ccp_wf_named. Qed.
 (* the excluded situation exists, is flagged, is ill scoped, and is harmless *)
 Theorem C02deep_ccp_dead_code_ill_scoped_witness :
@@ -171,7 +175,7 @@ Theorem C02deep_dce_preserves_mode : forall m w f args fuel v tr,
   wf_func f = true -> sem m w f args fuel = Done v tr -> sem m w (dce f) args fuel = Done v tr.
 Proof. exact dce_preserves_mode. Qed.
 Theorem C02deep_ccp_preserves_add : forall w f f' fl,
-  wf_func f = true -> no_dead_final_operands f -> ccp f = Some (f', fl) -> refines_add w f' f.
+  wf_func f = true -> no_dead_final_operands f -> no_struct_forwarding f -> ccp f = Some (f', fl) -> refines_add w f' f.
 Proof. exact ccp_preserves_add_named. Qed.
 Theorem C02deep_lvn_preserves_add : forall w f, wf_func f = true -> refines_add w (lvn f) f.
 Proof. exact lvn_preserves_add. Qed.
@@ -192,7 +196,8 @@ Proof. exact ccp_no_break. Qed.
 
 (* one round ccp; lvn; dce *)
 Theorem C02deep_round : forall w f f1 fl,
-  wf_func f = true -> no_break_l (f_body f) = true -> no_dead_final_operands f -> ccp f = Some (f1, fl) ->
+  wf_func f = true -> no_break_l (f_body f) = true -> no_dead_final_operands f -> no_struct_forwarding f ->
+  ccp f = Some (f1, fl) ->
   refines_add w (dce (lvn f1)) f /\ wf_func (dce (lvn f1)) = true /\ no_break_l (f_body (dce (lvn f1))) = true.
 Proof. exact round_preserves. Qed.
 
@@ -249,20 +254,52 @@ Qed.
 (* optimize_function_for_rounds (lib.rs) restricted to the modelled passes, in its order and number of rounds:
    Passes.pipeline lvn cse sup = (ccp; [cse]; [lvn]; dce) twice, then ccp; dce; ccp (scalar replacement and the loop
    optimisations off).  Only the INPUT has to be well formed, without a Break outside of a loop, and the supply fresh
-   for it; `pipeline_no_dead_final_operands` says that none of the five ccp applications met dead final operands. *)
+   for it; `pipeline_no_dead_final_operands` says that none of the five ccp applications met dead final operands,
+   `pipeline_no_struct_forwarding` that the pipeline without the forwarding of struct fields gives the same result. *)
 Theorem C02deep_pipeline : forall w lvn_on cse_on sup f f' fl sup',
   wf_func f = true -> no_break_l (f_body f) = true -> fresh_for sup f ->
-  pipeline_no_dead_final_operands lvn_on cse_on sup f ->
+  pipeline_no_dead_final_operands lvn_on cse_on sup f -> pipeline_no_struct_forwarding lvn_on cse_on sup f ->
   pipeline lvn_on cse_on sup f = Some (f', fl, sup') ->
   refines w f' f /\ wf_func f' = true /\ no_break_l (f_body f') = true.
 Proof. exact pipeline_preserves_named. Qed.
 Example C02deep_pipeline_nonvacuous :
   wf_func ex_ccp = true /\ no_break_l (f_body ex_ccp) = true /\ pipeline_no_dead_final_operands true true [] ex_ccp /\
+  pipeline_no_struct_forwarding true true [] ex_ccp /\
   (exists f', pipeline true true [] ex_ccp = Some (f', (false, false), []) /\ f' <> ex_ccp /\
               sem Wrap ex_world f' [4] 10 = Done 9 [(8%N, [5; 9]); (8%N, [5; 8]); (8%N, [5; 7])]).
 Proof.
   split; [vm_compute; reflexivity|]. split; [vm_compute; reflexivity|]. split; [vm_compute; reflexivity|].
+  split; [vm_compute; reflexivity|].
   eexists. split; [vm_compute; reflexivity|]. split; [intros H; discriminate H | vm_compute; reflexivity].
+Qed.
+
+(* StructInit statements are part of the fragment (structs are immutable values, Sem.v); a function that makes a
+   struct and passes it on is under every theorem above; one that also reads a field back is where the two
+   variants of the pass differ (the forwarded load needs `struct_world`, which the theorems do not assume) *)
+Definition ex_struct : func :=
+  mkfunc [1%N; 2%N]
+    [SBin 3%N PLUS (EVar 1%N) (EInt 0);
+     SStruct 4%N 7%N [EVar 3%N; EVar 2%N; EInt 5];
+     SCall 9%N [EVar 4%N] (Some 5%N);
+     SPrim 6%N (PIdx 0%N 1%N) (EVar 5%N)]
+    (EVar 6%N).
+Definition ex_struct_fwd : func :=
+  mkfunc [1%N; 2%N]
+    [SStruct 4%N 7%N [EVar 1%N; EVar 2%N]; SPrim 6%N (PIdx 0%N 1%N) (EVar 4%N); SCall 9%N [EVar 4%N; EVar 6%N] None]
+    (EVar 6%N).
+Example C02deep_struct_nonvacuous :
+  wf_func ex_struct = true /\ no_dead_final_operands ex_struct /\ no_struct_forwarding ex_struct /\
+  ccp ex_struct = Some
+    (mkfunc [1%N; 2%N]
+       [SStruct 4%N 7%N [EVar 1%N; EVar 2%N; EInt 5]; SCall 9%N [EVar 4%N] (Some 5%N); SPrim 6%N (PIdx 0%N 1%N) (EVar 5%N)]
+       (EVar 6%N), (false, false)) /\
+  wf_func ex_struct_fwd = true /\ ~ no_struct_forwarding ex_struct_fwd /\
+  ccp ex_struct_fwd = Some
+    (mkfunc [1%N; 2%N] [SStruct 4%N 7%N [EVar 1%N; EVar 2%N]; SCall 9%N [EVar 4%N; EVar 2%N] None] (EVar 2%N), (false, false)).
+Proof.
+  split; [vm_compute; reflexivity|]. split; [vm_compute; reflexivity|]. split; [vm_compute; reflexivity|].
+  split; [vm_compute; reflexivity|]. split; [vm_compute; reflexivity|].
+  split; [intros H; vm_compute in H; discriminate H | vm_compute; reflexivity].
 Qed.
 
 (* ---- local value numbering (local_value_numbering.rs): full strength ---- *)
